@@ -307,6 +307,40 @@ pub fn run(ctx: &Ctx) -> i32 {
         }
         col.layer("long contents around buffer-size multiples", nlong, true, json!({"content_bytes": 24696, "line_lengths": [7, 8, 9, 64, 4096], "append boundaries": [4095, 4096, 8191, 8192, 8193, 16384, 20000], "capacities": [4096, 8192]}));
     }
+    // one very long line (no bound on the length of a line is stated): lengths around powers of two up to 1 MiB (thorough: 16 MiB)
+    {
+        let mut nhuge = 0u64;
+        let mut lens_tried = Vec::new();
+        let tops: Vec<usize> = if ctx.tier == Tier::Thorough { vec![1 << 15, 1 << 16, 1 << 17, 1 << 20, 1 << 24] } else { vec![1 << 15, 1 << 16, 1 << 17, 1 << 20] };
+        for top in tops {
+            for line_len in [top - 1, top, top + 1] {
+                lens_tried.push(line_len);
+                let content = huge_content(line_len);
+                let total = content.len();
+                for lens in [vec![total], vec![line_len / 2, total - line_len / 2], vec![65536.min(line_len - 1), total - 65536.min(line_len - 1)], vec![line_len, total - line_len], vec![line_len - 1, 2, total - line_len - 1]] {
+                    let (fs, obs) = judge(&content, &lens, 8192, 0, None);
+                    nhuge += 1;
+                    col.eval(1);
+                    col.traces_validated.fetch_add(1, std::sync::atomic::Ordering::Relaxed);
+                    if let Some(o) = &obs {
+                        col.transitions.fetch_add(o.polls as u64, std::sync::atomic::Ordering::Relaxed);
+                        if o.polls_inside_line > 0 {
+                            col.nontrivial(h64(&("huge", line_len, &lens)));
+                        }
+                    }
+                    for mut f in fs {
+                        f.case = json!({"layer": "huge", "line_len": line_len, "chunks": lens, "capacity": 8192});
+                        f.signature = format!("{}:huge-line", f.signature);
+                        f.what = f.what.chars().take(300).collect();
+                        f.expected = json!("the line, whole");
+                        f.actual = json!("see what");
+                        col.fail(f);
+                    }
+                }
+            }
+        }
+        col.layer("one very long line", nhuge, true, json!({"line_lengths": lens_tried, "append_patterns": ["at once", "half + rest", "64 KiB + rest", "line + rest", "line minus last byte, 2 bytes, rest"]}));
+    }
     executor_layer(ctx, &col);
     col.layer("iterator schedules", done, complete, json!({"contents": contents.len(), "max_chars": maxchars, "max_bytes": maxbytes, "cut_items": total, "capacities": CAPS}));
     finish(
@@ -503,7 +537,27 @@ fn executor_layer(ctx: &Ctx, col: &Collector) {
     col.layer("FollowFileExecutor start-up position (child processes)", done, complete, json!({"prefixes": prefixes.len(), "max_chars": maxchars, "cases": total}));
 }
 
+/// a line of `line_len` bytes made of 'x' and two-byte 'é' (so that any cut position can fall inside a character), a
+/// short second line and an unterminated tail
+fn huge_content(line_len: usize) -> Vec<u8> {
+    let mut content: Vec<u8> = Vec::with_capacity(line_len + 32);
+    while content.len() + 3 <= line_len {
+        content.push(b'x');
+        content.extend_from_slice("é".as_bytes());
+    }
+    while content.len() < line_len {
+        content.push(b'y');
+    }
+    content.extend_from_slice(b"\nsecond line\n\ntail");
+    content
+}
+
 pub fn replay(case: &J) -> Vec<Failure> {
+    if case["layer"].as_str() == Some("huge") {
+        let content = huge_content(case["line_len"].as_u64().unwrap() as usize);
+        let chunks: Vec<usize> = case["chunks"].as_array().unwrap().iter().map(|x| x.as_u64().unwrap() as usize).collect();
+        return judge(&content, &chunks, case["capacity"].as_u64().unwrap() as usize, 0, None).0;
+    }
     if case["layer"].as_str() == Some("long") {
         let line_len = case["line_len"].as_u64().unwrap() as usize;
         let mut content: Vec<u8> = Vec::new();
